@@ -20,6 +20,11 @@ def suspend_part(ctx):
     # a branch that parks twice (inline done-callback in the timer thread) + the pinned variant of the scheduler lock as a probe
     executor_sweep(ctx, STRICT["C07"], tag=f"ext_{ctx.pid}", scripts_sets=[[["tsusp", "tsusp", "ok"], ["step", "ok"]]],
                    configs=[(0, 0, NONEC, NONEP)] + ([] if ctx.quick else [(0, 1, NONEC, NONEP), (1, 0, NONEC, NONEP)]))
+    # the backend fires its timers late: a resubmitted branch may find its wait / retry unchanged and park again (BodyRepark)
+    executor_sweep(ctx, STRICT["C07"], tag=f"exg_{ctx.pid}", lag=True,
+                   scripts_sets=[[["tsusp", "step", "ok"], ["step", "ok"]], [["sfail", "sretry", "ok"], ["susp"]]]
+                                + ([] if ctx.quick else [[["tsusp", "tsusp", "ok"], ["step", "fail"]]]),
+                   configs=[(0, 0, NONEC, NONEP)] + ([] if ctx.quick else [(0, 1, NONEC, NONEP), (1, 0, NONEC, NONEP)]))
     from checks.executor_common import exec_mc as _mc
     from lib.tlcrun import MachineryError as _ME, require_ok as _rq, run_tlc as _run
     mod, cfg = _mc(f"exp_{ctx.pid}_underlock", [["tsusp", "tsusp", "ok"], ["step", "ok"]], 0, 0, NONEC, NONEP, ["NoHang"], resubmit_under_lock=True)
@@ -46,6 +51,17 @@ def suspend_part(ctx):
                 for rep in range(3 if ctx.quick else 8):
                     items.append((p, {"seed": rng.randrange(1 << 30), "max_inv": 16, "api_latency": lat,
                                       "strategy": "pct" if rep % 2 else "random"}))
+    # late backend timers: a branch parked on a retry / wait timer is resumed by the LOCAL timer while the backend has not fired
+    # its own yet (lag from a fraction of a second to longer than the sibling's work): it must park again on a timer (and poll),
+    # never indefinitely
+    late = [{"nodes": [{"k": "par", "branches": [[{"k": "step", "fail": 1, "max": 2, "delay": 1}, {"k": "step"}], [{"k": "step", "dur": 4.0}, {"k": "step"}]]}, {"k": "step"}]},
+            {"nodes": [{"k": "map", "branches": [[{"k": "wait", "s": 1}, {"k": "step"}], [{"k": "wfc", "polls": 2}], [{"k": "step", "dur": 2.5}]]}]},
+            CURATED_CONC["m04_waits_retries"], CURATED_CONC["m15_timed_and_indef"]]
+    for p in late:
+        for k, lag in enumerate((0.4, 3.0, 45.0) if ctx.quick else (0.1, 0.2, 0.4, 1.0, 3.0, 10.0, 45.0)):
+            for rep in range(1 if ctx.quick else 4):
+                items.append((p, {"seed": rng.randrange(1 << 30), "max_inv": 12, "api_latency": (0.05, 0.3)[(k + rep) % 2], "timer_lag": lag,
+                                  "strategy": "pct" if rep % 2 else "random"}))
     # slow-holder schedules: for every lock the SDK creates, the thread holding it is descheduled (passed over while anybody else can
     # run; stalled for at most 0.5 virtual seconds in total) - lock-order inversions, done-callbacks running inline in the holder
     # and waiters piling up behind a long critical section are reached; a hang found this way is a real deadlock
@@ -100,9 +116,14 @@ def failstop_part(ctx):
     # a call failed ends within 5 virtual seconds of the failure (the caller waits in the executor, not inside user code)
     from checks.durable_common import run_campaign, scen_of
     from harness.driver import Execution
-    n0 = Execution(resume_while_running, {"seed": 1, "hang_after": 2000.0}).run().backend.api_calls
-    items = [(resume_while_running, {"seed": 900 + 7 * k + j, "faults": {str(k): f}, "max_inv": 6, "api_latency": lat, "hang_after": 2000.0})
-             for k in range(1, n0 + 1) for j, (f, lat) in enumerate([("invalid_param", 0.0), ("throttle429", 0.3)])]
+    # (second program: the failure surfaces INSIDE a branch of a call that tolerates one failure while the sibling is busy)
+    tolerant = {"nodes": [{"k": "par", "cfg": {"tolc": 1}, "caught": True, "branches": [[{"k": "step"}, {"k": "step"}], [{"k": "step", "dur": 30.0}]]},
+                          {"k": "step"}]}
+    items = []
+    for prog in (resume_while_running, tolerant):
+        n0 = Execution(prog, {"seed": 1, "hang_after": 2000.0}).run().backend.api_calls
+        items += [(prog, {"seed": 900 + 7 * k + j, "faults": {str(k): f}, "max_inv": 6, "api_latency": lat, "hang_after": 2000.0})
+                  for k in range(1, n0 + 1) for j, (f, lat) in enumerate([("invalid_param", 0.0), ("throttle429", 0.3)])]
     slow = run_campaign(ctx, items)
     for e in slow:
         oracles.c06(ctx, e)
